@@ -77,6 +77,7 @@ ProcessAccepted(st) == FoldL(ProcessOne, st, st.ent.aq)
 Close(st, id, status) ==
   [st EXCEPT !.ent.po[PoIdx(st, id)].st = status, !.ent.po[PoIdx(st, id)].ct = NowSec(st),
              !.ent.rq = SeqRemove(@, id)]
+WellFormedAddr(st, a) == a \in (DOMAIN st.ent.locked) \cup {"V", "ent", "gov", "grp", "stream", "feecol", "distr"}
 TallyOne(id, st) ==
   IF st.halted THEN st
   ELSE IF ~PoExists(st, id) \/ PoOf(st, id).st # "raised" THEN Halt(st)
@@ -85,7 +86,8 @@ TallyOne(id, st) ==
            rej == NumDec(o, "rejected")
            P   == st.ent.p
        IN IF NowSec(st) - o.rt >= P.limit /\ acc < P.min THEN Close(st, id, "rejected")
-          ELSE IF rej > Len(P.signers) - P.min THEN Close(st, id, "rejected")
+          \* "authorised signers": the well-formed entries of the list (in every state the specification reaches: all of them)
+          ELSE IF rej > Len(SelectSeq(P.signers, LAMBDA a : WellFormedAddr(st, a))) - P.min THEN Close(st, id, "rejected")
           \* st.aux.approved (observation variable): the orders the RULES accepted - the only ones that may ever mint (C02)
           ELSE IF acc >= P.min THEN [Close(st, id, "accepted") EXCEPT !.ent.aq = Append(@, id), !.aux.approved = @ \cup {id}]
           ELSE st
@@ -112,7 +114,6 @@ UnlockForFees(st, payer, fee) ==
 ------------------------------------------------------------------------------
 (* Parameter validity as the property states it, over the integers *)
 WellFormedDenom(d) == d \in {"nund", "other", "stake", "foo"}
-WellFormedAddr(st, a) == a \in (DOMAIN st.ent.locked) \cup {"V", "ent", "gov", "grp", "stream", "feecol", "distr"}
 EntParamsValid(st, p) ==
   /\ WellFormedDenom(p.denom)
   /\ p.min >= 1 /\ p.limit >= 1
